@@ -682,6 +682,7 @@ def run(chk):
         return {"bath": bb, "td": td, "mfs": mfs, "ps": ps, "pt": pt, "sys": oqupy.System(H), "par": par,
                 "par2": oqupy.TempoParameters(dt=0.05, epsrel=1e-7, dkmax=2), "chain": ch, "sysL": sl,
                 "gpar": oqupy.GibbsParameters(n_steps=5, epsrel=1e-9), "gbath": gb,
+                "par_full": oqupy.TempoParameters(dt=0.1, epsrel=1e-7, dkmax=None),
                 "mps": oqupy.AugmentedMPS([rho, rho.conj(), rho]), "tpar": oqupy.PtTebdParameters(dt=0.1, order=2, epsrel=1e-9)}
 
     def fingerprint(ob):
@@ -691,6 +692,11 @@ def run(chk):
             out += [np.array(ob[k_].hamiltonian)] + [np.array(x) for x in ob[k_].lindblad_operators] + [np.array(ob[k_].gammas, dtype=complex)]
         out += [np.array([ob["par"].dt, ob["par"].epsrel, ob["par2"].dt, ob["par2"].epsrel]), np.array(ob["bath"].coupling_operator), np.array(ob["bath"].unitary_transform)]
         out += [np.array([ob["gpar"].n_steps, ob["gpar"].epsrel, ob["tpar"].dt, ob["tpar"].epsrel, ob["tpar"].order])]
+        # every field of the TEMPO parameter objects (None -> -1)
+        nz = lambda v_: -1.0 if v_ is None else float(v_)
+        for k_ in ("par", "par2", "par_full"):
+            out += [np.array([nz(ob[k_].dt), nz(ob[k_].epsrel), nz(ob[k_].dkmax), nz(ob[k_].add_correlation_time), nz(ob[k_].subdiv_limit),
+                              nz(ob[k_].liouvillian_epsrel)])]
         out += [np.array(g_) for g_ in ob["mps"].gammas] + [np.array(l_) for l_ in ob["mps"].lambdas]
         return out
 
@@ -727,6 +733,13 @@ def run(chk):
                               oqupy.PtTebdParameters(dt=0.1, order=order, epsrel=1e-9), dynamics_sites=[0, 1, 2])
             r = tb.compute(2, progress_type="silent")
             return np.concatenate([np.array(r["dynamics"][i].states).reshape(-1) for i in range(3)])
+        if name.startswith("pt-full#") or name.startswith("tempo-full#"):
+            # a parameter object without a memory cut-off, first used for a short process tensor, then for a longer TEMPO run
+            n_ = int(name.split("#")[1])
+            if name.startswith("pt-full#"):
+                pt_ = oqupy.pt_tempo_compute(ob["bath"], 0.0, n_ * 0.1, parameters=ob["par_full"], progress_type="silent")
+                return st(oqupy.compute_dynamics(ob["sys"], initial_state=rho, process_tensor=pt_, progress_type="silent"))
+            return st(oqupy.Tempo(ob["sys"], ob["bath"], ob["par_full"], rho, 0.0).compute(n_ * 0.1, progress_type="silent"))
         if name.startswith("gibbs@"):
             return np.array(oqupy.gibbs_tempo_compute(ob["sys"], ob["gbath"][name[6:]], ob["gpar"], progress_type="silent")).reshape(-1)
         if name.startswith("meanfield-flip@") or name.startswith("field-dynamics"):
@@ -763,7 +776,8 @@ def run(chk):
     JOBS = ["tempo@0.0", "tempo@1.5", "tempo@-0.7", "tempo-dt2@0.0", "tempo-dt2@1.5", "dynamics@0.0", "dynamics@1.5", "dynamics@-0.7",
             "dynamics-nosubdiv@0.0", "dynamics-nosubdiv@1.5", "correlations@0.0", "correlations@1.5", "meanfield@0.0", "meanfield@0.4",
             "gradient#0", "gradient#1", "tempo-plain", "tebd#1", "tebd#2", "chain-generators", "guess", "tempo-guessed", "dynamics-lindblad",
-            "gibbs@A", "gibbs@B", "meanfield-flip@0.0", "meanfield-flip@0.4", "field-dynamics@0.0", "field-dynamics-flip@0.0", "tebd-mps#1", "tebd-mps#3"]
+            "gibbs@A", "gibbs@B", "meanfield-flip@0.0", "meanfield-flip@0.4", "field-dynamics@0.0", "field-dynamics-flip@0.0", "tebd-mps#1", "tebd-mps#3",
+            "pt-full#3", "tempo-full#8", "pt-full#6"]
     fresh_results = {}
     for it in range(5 if thorough else 2):
         shared = quiet(mk_objs)
@@ -776,7 +790,8 @@ def run(chk):
             + rng.choice([["guess", "dynamics-lindblad"], ["tempo-guessed", "guess", "dynamics-lindblad"]]) \
             + rng.choice([["gibbs@A", "gibbs@B"], ["gibbs@B", "gibbs@A"]]) \
             + rng.choice([["meanfield@0.0", "meanfield-flip@0.0"], ["field-dynamics@0.0", "field-dynamics-flip@0.0"], ["meanfield-flip@0.4", "meanfield@0.4"]]) \
-            + rng.choice([["tebd-mps#1", "tebd-mps#3"], ["tebd-mps#3", "tebd-mps#1"]]) + seq
+            + rng.choice([["tebd-mps#1", "tebd-mps#3"], ["tebd-mps#3", "tebd-mps#1"]]) \
+            + rng.choice([["pt-full#3", "tempo-full#8"], ["pt-full#3", "pt-full#6", "tempo-full#8"]]) + seq
         chain_snapshot = [x.copy() for x in fingerprint(shared)]
         for pos, name in enumerate(seq):
             info = {"kind": "shared-pool", "sequence": seq[:pos + 1], "job": name}
